@@ -12,7 +12,7 @@
 From Coq Require Import List NArith Bool String.
 From FIM Require Import Base.Str Gen.T9Names Model.T9Graph Model.T9Ops Model.T9Check
      Proofs.T9Monad Proofs.T9Simple Proofs.T9Ext Proofs.T9Connect Proofs.T9Refuted Proofs.T9Atomic
-     Proofs.T9Component.
+     Proofs.T9Component Proofs.T9CompFresh.
 Import ListNotations.
 Open Scope N_scope.
 
@@ -108,12 +108,12 @@ Print Assumptions C09_add_component_atomic_refuted.
 (* ... atomic for every failure that is not a PropertyGraphQueryException: duplicate component name, unknown
    component model (CatalogException), invalid property among valid ones, missing model or ids, wrong number
    of ids (RuntimeError) - for every state and every argument *)
-Theorem C09_add_component_atomic_partial :
+Theorem C09_add_component_atomic_nonquery_partial :
   forall fl pn name node_id spec_given nic sub_ids cat pure s s' e,
   op_add_component fl pn name node_id spec_given nic sub_ids cat pure s = (s', Err e) ->
   e <> EQuery -> sg s' = sg s.
 Proof. exact add_component_atomic_nonquery. Qed.
-Print Assumptions C09_add_component_atomic_partial.
+Print Assumptions C09_add_component_atomic_nonquery_partial.
 Example C09_add_component_unknown_model_ex :
   let r := op_add_component Experiment 1 (S "x1") None true true false (Err ECatalog) None (mkSt g_two_nodes supply) in
   snd r = Err ECatalog /\ sg (fst r) = g_two_nodes.
@@ -124,6 +124,23 @@ Example C09_add_component_ok_ex :
              None (mkSt g_two_nodes supply) in
   snd r = Ok 50 /\ List.length (gnodes (sg (fst r))) = 12%nat.
 Proof. exact ex_component_ok. Qed.
+
+(* ... and atomic for EVERY exception when the ids the call is going to use (caller-supplied or drawn, in the
+   order component, interfaces, service) are pairwise distinct and not in the graph - the hypothesis that
+   excludes exactly the witness above *)
+Theorem C09_add_component_atomic_partial :
+  forall fl pn name node_id spec_given nic sub_ids cat pure g fresh s' e,
+  ids_fresh g (component_ids node_id cat fresh) = true ->
+  op_add_component fl pn name node_id spec_given nic sub_ids cat pure (mkSt g fresh) = (s', Err e) ->
+  sg s' = g.
+Proof. exact add_component_atomic_fresh. Qed.
+Print Assumptions C09_add_component_atomic_partial.
+Example C09_add_component_atomic_partial_ex :
+  ids_fresh g_two_nodes (component_ids (Some 20) (Ok (spec_smartnic 21 22 23)) supply) = true /\
+  ids_fresh g_two_nodes (component_ids (Some 20) (Ok (spec_smartnic 21 22 22)) supply) = false /\
+  ids_fresh g_two_nodes (component_ids None (Ok (mkCompSpec tNIC (Some (mkChildNs (S "x") tOVS None
+                                         [mkChildIf (S "p") tSharedPort None])))) supply) = true.
+Proof. exact ex_ids_fresh. Qed.
 
 (* ---- Topology.add_facility: node, service, ports in three steps without rollback *)
 Theorem C09_add_facility_atomic_refuted :
@@ -141,3 +158,22 @@ Theorem C09_add_facility_atomic_partial :
   sg s' = sg s.
 Proof. exact add_facility_first_step. Qed.
 Print Assumptions C09_add_facility_atomic_partial.
+
+(* ---- Topology.add_switch: same structure as add_facility *)
+Theorem C09_add_switch_atomic_refuted :
+  exists fl name nid dns dk ty pns np pp g fresh s' e,
+    wf_graph g = true /\ op_add_switch fl name nid dns dk ty pns np pp (mkSt g fresh) = (s', Err e) /\ sg s' <> g.
+Proof. exact add_switch_atomic_refuted. Qed.
+Print Assumptions C09_add_switch_atomic_refuted.
+
+Theorem C09_add_switch_atomic_partial :
+  forall fl name node_id d_ns d_intk nstype pure_ns nports pure_port s s' e,
+  op_add_switch fl name node_id d_ns d_intk nstype pure_ns nports pure_port s = (s', Err e) ->
+  (forall s1 id, op_add_node fl name node_id (Some tSwitch) None s <> (s1, Ok id)) ->
+  sg s' = sg s.
+Proof. exact add_switch_first_step. Qed.
+Print Assumptions C09_add_switch_atomic_partial.
+Example C09_add_switch_ok_ex :
+  let r := op_add_switch Experiment (S "sw1") None 0 [] tVLAN None 2 None (mkSt g_two_nodes supply) in
+  snd r = Ok 50 /\ List.length (gnodes (sg (fst r))) = 13%nat.
+Proof. exact ex_switch_ok. Qed.
